@@ -18,11 +18,12 @@ SPEC = dict(
     level="proof",
     observers=[dict(cmd="obs_ctx", imports=["Model.Pipe", "Model.PipeLts", "Model.PipeWait", "Model.PipeCase"],
                     case_type="PipeCase.case", check="PipeCase.check_case", shard=20,
-                    n={"quick": 66, "thorough": 660}, timeout={"quick": 900, "thorough": 5400})],
+                    n={"quick": 72, "thorough": 720}, timeout={"quick": 900, "thorough": 5400})],
     rule="scenario kinds: stalled reply to a pipelined single / batch (deadline or manual cancellation), stalled reply to a synchronous "
          "call (connection deadline derived from the context), a context that is already done (cancelled / expired; single / batch), "
          "a caller blocked in PutOne of a full 2-position flow buffer, a caller waiting on another caller's pending cache flight (lru and "
-         "adapter), retry back-off with a 3 s delay (manual cancellation; deadline sooner than the delay; a 30 ms delay that elapses), "
+         "adapter), retry back-off with a 3 s delay (manual cancellation of a cancel-only context; of a context with a one-minute deadline, by its own cancel function or "
+         "through its parent, Do and DoMulti; deadline sooner than the delay; a 30 ms delay that elapses), "
          "two callers with different kinds of context on one idle connection (A: deadline, waiting synchronously on a stalled server; "
          "B arrives with a cancel-only context / context.Background / a SUBSCRIBE / on an already pipelining connection): A returns at "
          "its deadline with the context's error and the background workers are not started while A owns the connection; "
@@ -43,7 +44,7 @@ MANIFEST = dict(
          "whose connection deadline derived from the context has passed (C05_exit_enabled_sync); cancellation can arrive in every state "
          "(C05_ctxdone_any_time); the selects of cacheEntry.Wait / adapterEntry.Wait and of the retry back-off are never blocked once the "
          "context is done, and WaitOrSkipRetry never starts a back-off that would outlast the deadline (C05_exit_enabled_cache_wait, "
-         "C05_exit_enabled_retry, C05_retry_skips_when_deadline_sooner); a call whose context is already done returns the context's error "
+         "C05_exit_enabled_retry, C05_exit_enabled_retry_any_ctx, C05_retry_skips_when_deadline_sooner); a call whose context is already done returns the context's error "
          "and its commands are never put on the wire nor queued, in any schedule (C05_done_ctx_sends_nothing); while a caller uses the "
          "connection synchronously it is its only user and the background workers - whose first action clears the connection deadline - "
          "are started by no step but that caller's own failure step, so nobody else touches the deadline it derived from its context "
